@@ -137,7 +137,9 @@ theorem C05_counterexample_null_empty :
     (printPath (some [⟨⟨0, .numeric 33⟩, false, true, ⟨1, some []⟩⟩])).bind parsePath =
       some [⟨⟨0, .numeric 33⟩, false, true, ⟨1, none⟩⟩] ∧
     (printPath (some [⟨⟨0, .numeric 33⟩, false, true, ⟨5, none⟩⟩])).bind parsePath =
-      some [⟨⟨0, .numeric 33⟩, false, true, ⟨0, none⟩⟩] := by decide
+      some [⟨⟨0, .numeric 33⟩, false, true, ⟨0, none⟩⟩] ∧
+    -- a null element array and an empty one have the same (empty) text
+    (printPath none = some [] ∧ printPath (some []) = some [] ∧ parsePath [] = some []) := by decide
 
 /-- a string reference type id in namespace 0 equal to a standard name comes back as the numeric id -/
 theorem C05_counterexample_std_string :
